@@ -87,6 +87,16 @@ CHECKS["C05"] = dict(
  note=COMMON_GEO_NOTE,
  technique="TLA+ textbook tensor calculus on jets in exact modular arithmetic evaluated by TLC, lifted by CRT; real helpers run on polynomial fields with the same jets and compared at the probe point with convergence re-examination",
  design_ref="DESIGN.md 4.7, 5/C05")
+CHECKS["C08"] = dict(
+ text="Pointwise.tla, in exact integer / rational arithmetic: (matrix) every symmetric 3x3 and 4x4 matrix over a small entry set with the Leibniz determinant and the cofactor adjugate (TLC checks adj g = det 1) - a complete interpolation grid for polynomials of degree <= 2 per entry, so agreement of determinant3/4 and inverse3/4 on the grid proves the polynomial identities; (divide) the case table of safe_division over operand kinds x zero/non-zero values with the reference a/b or 0; (place) the index placement of the 3+1 Riemann pieces (TLC checks it reproduces the Riemann symmetries); (metric) 3+1 <-> 4-D metric algebra at integer points in exact rationals (TLC checks det g = -alpha^2 det gamma, n.n = -1, trace-freeness). Each TLC state is one point of a grid on which the real functions are evaluated; 14 identities and the Riemann/Weyl symmetries are evaluated on the code's outputs, with the inputs handed over as tensors, as components and as partial components.",
+ note="4x4 matrices over 2 values in quick (1024 states), 3 values in thorough (59049: the complete interpolation grid). 120 / 600 metric points. Float comparison within 1e-11. Pair symmetry and Bianchi of the FD-computed curvature are checked to the discretisation error (2e-4), antisymmetry in the last index pair to 1e-8.",
+ technique="TLA+ exact integer/rational pointwise algebra enumerated by TLC (complete interpolation grids, case tables); every state evaluated on the real functions",
+ design_ref="DESIGN.md 4.7, 5/C08")
+CHECKS["C09"] = dict(
+ text="Fluid.tla computes, at points with exact rational lapse, shift, non-diagonal metric, velocity, rest-mass density, internal energy and pressure, u^mu = W(n^mu + v^mu), u_mu, h_mu_nu, T_mu_nu = rho0 h u_mu u_nu + p g_mu_nu and its Eulerian projections in exact arithmetic modulo primes (everything expressed through the rational W^2), and TLC checks on every state the closed forms E = rho0 h W^2 - p, S_i = rho0 h W^2 v_i, S_ij = rho0 h W^2 v_i v_j + p gamma_ij, T = 3p - rho = S - E, u.u = -1, h u = 0. The real keys are compared at every grid point (one TLC state per point), with fluid variables given and with T supplied directly, both Ttrace branches, every key read again at the end; projector, conserved densities and the two derivations of the spatial Ricci tensor from T are evaluated on the code's outputs.",
+ note="60 points (quick) / 400 (thorough) in 5 classes (fluid at rest, zero shift, unit lapse, generic). W is the float square root of the exact W^2. Tolerance 1e-10 relative.",
+ technique="TLA+ exact fluid algebra modulo primes evaluated by TLC (closed forms checked as invariants), lifted by CRT; every state compared with the real keys on a grid",
+ design_ref="DESIGN.md 4.7, 5/C09")
 
 NA = {
  "C17": "Closed-form transcendental solutions (sin, sinh, 2F1, t^(2/3)): no state, history or case analysis for a TLA+ specification to enumerate, and TLC has neither reals nor transcendental functions; a CAS/interval technique would be a different family (DESIGN.md section 6).",
